@@ -288,6 +288,7 @@ func genC15(r *Rand, reserved []string, nvar int, coff bool) *VariantCase {
 	src := p.Source()
 	ids := identsOf(p)
 	c := &VariantCase{Prop: "C15", Coff: coff}
+	var undef []string
 	if coff {
 		// export the labels
 		var labs []string
@@ -295,6 +296,16 @@ func genC15(r *Rand, reserved []string, nvar int, coff bool) *VariantCase {
 			if s.K == "label" {
 				labs = append(labs, s.Label)
 			}
+		}
+		// half of the objects also declare names that are defined nowhere (undefined externals): they are renamed like the others
+		if r.Bool() {
+			for i := r.Range(1, 2); i > 0; i-- {
+				u := fmt.Sprintf("zzdecl%d", i)
+				undef = append(undef, u)
+				labs = append(labs, u)
+				ids = append(ids, u)
+			}
+			Shuffle(r, labs)
 		}
 		src = "[FORMAT \"WCOFF\"]\n[FILE \"x.nas\"]\n\tGLOBAL " + strings.Join(labs, ", ") + "\n" + src
 	}
@@ -311,6 +322,22 @@ func genC15(r *Rand, reserved []string, nvar int, coff bool) *VariantCase {
 		m := map[string]string{}
 		for i, id := range ids {
 			m[id] = names[i]
+		}
+		if len(undef) > 0 && len(labsAll) > 0 && v%3 == 1 {
+			// a declared-only name that differs from a defined label's name by a leading underscore, a trailing one, or one
+			// more character: related spellings are still different symbols
+			l := Pick(r, labsAll)
+			cand := Pick(r, []string{"_" + m[l], m[l] + "_", m[l] + "2", "__" + m[l]})
+			clash := len(cand) > 40 || hasReservedPrefix(cand, reserved)
+			for _, used := range m {
+				if used == cand {
+					clash = true
+				}
+			}
+			if !clash {
+				m[undef[0]] = cand
+				kind += "+declared-only-relative"
+			}
 		}
 		c.Variants = append(c.Variants, []byte(renameIdents(src, m)))
 		c.Labels = append(c.Labels, kind+": "+fmt.Sprint(m))
